@@ -25,6 +25,7 @@ def WFStmt (sc : Schema) : Stmt → Prop
   | .update sets _ => ∀ p ∈ sets, p.1 < sc.ncols ∧ p.1 ∉ sc.pk
   | .delete _ => True
   | .insert rows => ∀ es ∈ rows, es.length = sc.ncols
+  | .failing _ => True
 
 theorem wfStmt_iff (sc : Schema) (s : Stmt) : WFStmt sc s ↔ StmtWF sc s := by
   cases s <;> exact Iff.rfl
